@@ -13,8 +13,22 @@ Variable chain_id : bytes.
 Theorem C19_bridge_failure_changes_nothing s o :
   fst (snd (bk_step H chain_id s o)) <> 0%N -> fst (bk_step H chain_id s o) = s.
 Proof. exact (failure_is_identity H chain_id s o). Qed.
+
+(* a failed bridge / relayer operation hands nothing over to the execution layer either *)
+Theorem C19_bridge_failure_emits_nothing s o :
+  fst (snd (bk_step H chain_id s o)) <> 0%N -> snd (snd (bk_step H chain_id s o)) = [].
+Proof. exact (bk_failure_emits_nothing H chain_id s o). Qed.
+
+(* over whole histories: the operations that failed along a run can be erased - the run reaches the very same
+   state from its successful operations alone, and each of those succeeds again when replayed *)
+Theorem C19_bridge_failed_ops_erasable ops s :
+  bk_run H chain_id s ops = bk_run H chain_id s (bk_succ H chain_id s ops) /\
+  bk_all_ok H chain_id s (bk_succ H chain_id s ops) = true.
+Proof. exact (bk_failed_ops_erasable H chain_id ops s). Qed.
 End C19.
 Print Assumptions C19_bridge_failure_changes_nothing.
+Print Assumptions C19_bridge_failure_emits_nothing.
+Print Assumptions C19_bridge_failed_ops_erasable.
 
 Theorem C19_locking_failure_changes_nothing s o :
   fst (fst (snd (lk_step s o))) <> 0%N -> fst (lk_step s o) = s.
@@ -24,3 +38,14 @@ Print Assumptions C19_locking_failure_changes_nothing.
 Theorem C19_handover_total s : fst (fst (snd (lk_step s KDequeue))) = 0%N.
 Proof. exact (lk_dequeue_total s). Qed.
 Print Assumptions C19_handover_total.
+
+(* a failed locking operation emits no validator update and hands over no transaction *)
+Theorem C19_locking_failure_emits_nothing s o :
+  fst (fst (snd (lk_step s o))) <> 0%N -> snd (fst (snd (lk_step s o))) = [] /\ snd (snd (lk_step s o)) = [].
+Proof. exact (lk_failure_emits_nothing s o). Qed.
+Print Assumptions C19_locking_failure_emits_nothing.
+
+Theorem C19_locking_failed_ops_erasable ops s :
+  lk_run s ops = lk_run s (lk_succ s ops) /\ lk_all_ok s (lk_succ s ops) = true.
+Proof. exact (lk_failed_ops_erasable ops s). Qed.
+Print Assumptions C19_locking_failed_ops_erasable.
